@@ -1127,3 +1127,54 @@ mod tests {
         }
     }
 }
+
+//------------ Verification hooks (off by default) ---------------------------
+
+/// Add-only access for the external verification harness (feature
+/// `verif-hooks`): calls the real `BmpTcpInRunner::accept_config` (the code
+/// that spawns the per-router task and removes the router from the router
+/// maps when the task's `run` returns).
+#[cfg(feature = "verif-hooks")]
+pub mod verif_hooks {
+    use super::*;
+    use crate::common::net::TcpStreamWrapper;
+
+    pub type RouterStates = Arc<
+        FrimMap<ingress::IngressId, Arc<tokio::sync::Mutex<Option<BmpState>>>>,
+    >;
+    pub type RouterInfos = Arc<FrimMap<ingress::IngressId, Arc<RouterInfo>>>;
+
+    struct Stream(tokio::net::TcpStream);
+    impl TcpStreamWrapper for Stream {
+        fn into_inner(self) -> std::io::Result<tokio::net::TcpStream> {
+            Ok(self.0)
+        }
+    }
+
+    pub fn new_router_info() -> Arc<RouterInfo> {
+        Arc::new(RouterInfo::new())
+    }
+
+    #[allow(clippy::too_many_arguments)]
+    pub fn accept_config(
+        child_name: String,
+        router_handler: RouterHandler,
+        tcp_stream: tokio::net::TcpStream,
+        router_addr: SocketAddr,
+        ingress_id: ingress::IngressId,
+        router_states: &RouterStates,
+        router_info: &RouterInfos,
+        ingress_register: Arc<ingress::Register>,
+    ) {
+        <BmpTcpInRunner as ConfigAcceptor>::accept_config(
+            child_name,
+            router_handler,
+            Stream(tcp_stream),
+            router_addr,
+            ingress_id,
+            router_states,
+            router_info,
+            ingress_register,
+        )
+    }
+}
